@@ -51,7 +51,7 @@ pub struct MCh {
     pub closed_reported: bool,
 }
 
-#[derive(Default)]
+#[derive(Default, Clone)]
 pub struct Model {
     pub chans: Vec<MCh>,
 }
